@@ -43,7 +43,7 @@ REQUIRED_LABELS = {"all": ["backend:gaussian", "backend:bosonic", "backend:fock"
                            "hom:sampled", "hom:feedforward", "op:MSgate", "MSgate:single_shot", "MSgate:avg", "op:MeasureHeterodyne",
                            "bosonic:multi_weight", "near_threshold", "gaussian:exact_branch", "hbar:extreme", "api:poly_full", "api:wigner_q",
                            "api:fidelity", "api:purity", "api:marginal", "fn:displaced_squeezed_state", "fn:squeezed_state", "fn:coherent_state",
-                           "fn:squeezed_cov"]}
+                           "fn:squeezed_cov", "hom:select_correlated"]}
 
 # finding F68 (fixed; formerly AUDIT-FINDING msgate-ancilla-units): Result.ancillae_samples of MSgate(avg=False) scale with 1/sqrt(hbar) (ops.py MSgate._apply returns
 # ancillae_val / s, MeasureHomodyne returns s * val); the comparison of the ancilla outcomes is switched off until that is decided
@@ -141,8 +141,8 @@ def rescale(ops_, f):
 
 
 PS_KINDS = ["Xgate", "MSgate", "hom_sample", "Gaussian", "MeasureHomodyne", "nongauss", "Zgate", "near_threshold", "heterodyne", "none",
-            "Gaussian_weak_thermal", "Gaussian", "hom_sample", "Gaussian", "nongauss", "near_threshold", "heterodyne", "MSgate"]
-FOCK_KINDS = ["Xgate", "hom_sample", "Zgate", "MeasureHomodyne", "Vgate", "none", "hom_sample"]
+            "Gaussian_weak_thermal", "Gaussian", "hom_sample", "Gaussian", "nongauss", "near_threshold", "heterodyne", "MSgate", "MeasureHomodyne"]
+FOCK_KINDS = ["Xgate", "hom_sample", "Zgate", "MeasureHomodyne", "Vgate", "none", "hom_sample", "MeasureHomodyne"]
 # squeezing values around the default tolerances of is_squeezed (max |cov/(hbar/2) - 1| > 1e-6) and is_coherent (1e-10).  For squeezing
 # r exp(i phi) the largest deviation is 2r max(|cos phi|, |sin phi|), i.e. in [1.41 r, 2 r]: none of these intervals contains its tolerance
 # (closest: 1.41 * 7.5e-7 = 1.06e-6, 2 * 4.5e-7 = 0.9e-6), so the answer does not hinge on rounding for any phase
@@ -203,6 +203,12 @@ def gen_case(draw, fock=False):
             r = spec.enc_vec([draw(gen.fl(-1.0, 1.0)) * np.sqrt(h1 / 2) for _ in range(2 * k)])
         ops_.insert(draw(st.integers(0, len(ops_))), ["Gaussian", [spec.enc_matrix(V), r], modes, {"kw": {"decomp": draw(st.booleans())}}])
     elif kind == "MeasureHomodyne":
+        if n >= 2 and draw(st.integers(0, 3)) > 0:
+            # the post-selection is visible only in the CONDITIONAL state of the other modes: correlate the measured mode with one of them
+            # right before the measurement (seeded change C15-E: select handed to the backend without the conversion to its units)
+            other = draw(st.sampled_from([x for x in range(n) if x != m]))
+            ops_.append(["S2gate", [draw(gen.fl(0.3, 0.8)) * (0.5 if fock else 1), draw(gen.angle())], [m, other], {}])
+            tags.append("hom:select_correlated")
         ops_.append(["MeasureHomodyne", [draw(gen.angle())], [m], {"select": draw(gen.fl(-1.0, 1.0)) * np.sqrt(h1 / 2) * (0.4 if fock else 1)}])
     elif kind == "hom_sample":
         # a SAMPLED homodyne measurement (both runs use the same seed): the outcome is a quadrature value; optionally it is fed forward
@@ -513,6 +519,11 @@ def check_ps(ctx, case):
                     np.round(a1 / np.sqrt(h1), 9).tolist(), h1, np.round(a2 / np.sqrt(h2), 9).tolist(), h2), be)
         dm = float(np.max(np.abs(m2 / np.sqrt(h2) - m1 / np.sqrt(h1))))
         dv = float(np.max(np.abs(V2 / h2 - V1 / h1)))
+        if (dm > tol or dv > tol) and max(dm, dv) < 1e-4 and (_n3_applies(ops1, h1) or _n3_applies(ops2, h2)):
+            # not an hbar effect: the prepared state itself is off by that much at EITHER hbar (last-digit rounding of V decides how)
+            ctx.note(case, True, labels)
+            return ctx.fail("bloch_messiah.near_degenerate_cluster_split_by_rounding", "Gaussian(V, decomp=True): bloch_messiah factors of williamson's S are not "
+                            "symplectic, the prepared covariance is off by ~%.3g (differently at hbar=%g and hbar=%g)" % (max(dm, dv), h1, h2))
         if dm > tol or dv > tol:
             return _fail(ctx, case, labels, "%s.moments_not_covariant" % be, "means/sqrt(hbar) differ by %.3g, cov/hbar by %.3g between hbar=%g and hbar=%g" % (dm, dv, h1, h2), be)
         # state API
@@ -568,6 +579,27 @@ def check_ps(ctx, case):
         pass
     ctx.note(case, nontrivial=bool(ran) and _nontrivial(ops1), labels=labels)
     return None
+
+
+def _n3_applies(ops_, h):
+    """open finding N3 (root cause catalogued under C17): Gaussian(V, decomp=True) hands the S of williamson(V) to bloch_messiah, which
+    groups singular values by rounding and returns factors that are symplectic only to 1e-7..5e-5 when two of them (or one and 1) differ
+    by 1e-10..1e-6.  Evaluated on the very matrices of this case with the repo's own routines."""
+    from strawberryfields import decompositions as dec
+
+    for o in ops_:
+        if o[0] != "Gaussian" or not ((o[3] if len(o) > 3 else None) or {}).get("kw", {}).get("decomp", True):
+            continue
+        try:
+            V = np.asarray(spec.dec_param(o[1][0]), float) / (h / 2)
+            _, S = dec.williamson(V, tol=1e-6)
+            O1, _, O2 = dec.bloch_messiah(S)
+        except Exception:  # pylint: disable=broad-except
+            continue
+        Om = refsim.omega(len(S) // 2)
+        if max(float(np.max(np.abs(O1 @ Om @ O1.T - Om))), float(np.max(np.abs(O2 @ Om @ O2.T - Om)))) > 1e-9:
+            return True
+    return False
 
 
 def _fail(ctx, case, labels, sig, detail, be):
